@@ -86,6 +86,7 @@ func (cache *CacheLRU) Push(key any) {
 		unixTime: time.Now().UnixMilli(),
 		index:    n,
 	})
+	cache.keys[key.(string)] = true
 }
 
 func (cache *CacheLRU) Pop() any {
